@@ -83,6 +83,10 @@ pub enum Surgery {
         lookups: Vec<u16>,
         min: i16,
         max: i16,
+        /// Axis index the condition names (0 unless stated): an index the font's `fvar` (and so
+        /// every tuple built from it) does not have makes the tables disagree.
+        #[serde(default, skip_serializing_if = "is_zero_u16")]
+        axis: u16,
     },
     /// Like `FeatureVariations` but with several records (first matching condition wins), so that
     /// different tuples select different substitution tables.
@@ -290,6 +294,10 @@ pub enum Fault {
         tag: String,
         err: String,
     },
+}
+
+fn is_zero_u16(v: &u16) -> bool {
+    *v == 0
 }
 
 fn is_zero_u32(v: &u32) -> bool {
